@@ -201,6 +201,19 @@ class _Capture(logging.Handler):
 def check_case(spec, obs, pre_calls=0):
     case = {'spec': spec, 'pre_calls': pre_calls}
     d, files = build(spec)
+    if pre_calls == 3:
+        # the same tree after a serialise -> parse round trip (what a tool
+        # that post-processes an existing DiffX file works on)
+        from pydiffx.dom import DiffX
+        try:
+            d = DiffX.from_bytes(d.to_bytes())
+            files = [(d.changes[ci].files[fi], f)
+                     for ci, ch in enumerate(spec['changes'])
+                     for fi, f in enumerate(ch['files'])]
+            obs.count('parsed_trees')
+        except Exception:
+            obs.count('roundtrip_not_possible(constructed tree used)')
+            d, files = build(spec)
     before = treesnap.snapshot(d)
     cap = _Capture()
     lg = logging.getLogger('pydiffx.dom.objects')
@@ -292,7 +305,7 @@ def run(ctx):
     n = ctx.share(ctx.pick(8000, 200000))
     for k in range(n):
         spec = gen_tree_spec(rng)
-        check_case(spec, obs, pre_calls=rng.choice([0, 0, 0, 1, 2]))
+        check_case(spec, obs, pre_calls=rng.choice([0, 0, 0, 1, 2, 3, 3]))
         if k < 1 and ctx.index == 0:
             obs.sample({'spec': spec})
 
